@@ -463,6 +463,7 @@ fn check_case(l: &mut Local, case: &Case, qrng: &mut Rng, log: bool) {
             }
             let mut nodes = (s.av)(v.as_ref(), false).nodes();
             let mut extra_nodes = 0;
+            let mut extra_arg: Option<(&corpus::DynType, AV)> = None;
             if let Some(x) = extra.as_ref().and_then(|n| corpus::find(n)) {
                 let xv = (x.gen)(&mut rng, *size);
                 if guard(|| (x.arg)(&mut b, xv.as_ref())).is_err_or_panic() {
@@ -471,6 +472,7 @@ fn check_case(l: &mut Local, case: &Case, qrng: &mut Rng, log: bool) {
                 }
                 extra_nodes = (x.av)(xv.as_ref(), false).nodes();
                 nodes += extra_nodes;
+                extra_arg = Some((x, (x.av)(xv.as_ref(), false)));
             }
             bytes = match guard(|| b.serialize_to_vec()) {
                 Guarded::Done(Ok(b)) => b,
@@ -494,17 +496,19 @@ fn check_case(l: &mut Local, case: &Case, qrng: &mut Rng, log: bool) {
             model = if identity && !senv.mentions(&st, Prim::Reserved) { Some(4.0 * header + model_cost(&senv, &(s.av)(v.as_ref(), false), &st, table_len)) } else { None };
             let mut renv = senv.clone();
             let rt = (r.sim_type)(&mut renv);
-            wenv = senv.clone();
             wargs.push((st.clone(), (s.av)(v.as_ref(), false)));
+            // the surplus argument is skipped entirely: the walk below finds no decoded value for it
+            // and books its documented cost as skipped
+            if let Some((x, xav)) = extra_arg {
+                let xt = (x.sim_type)(&mut senv);
+                wargs.push((xt, xav));
+            }
+            wenv = senv.clone();
             hdr = header;
             tlen = table_len;
             let unordered = |n: &str| n.contains("Hash") || n.contains("BTreeSet") || n.contains("BTreeMap") || n.contains("Reserved");
             order_preserving = (!(unordered(sender) || unordered(receiver)) || sender == receiver) && !sender.contains("Reserved") && !receiver.contains("Reserved");
             et_nodes = rt.nodes() as f64 + renv.0.values().map(|t| t.nodes() as f64).sum::<f64>();
-            if let Some(x) = extra.as_ref().and_then(|n| corpus::find(n)) {
-                // the surplus argument is skipped entirely; its model cost is added below through n_extra
-                let _ = x;
-            }
             skip_lb = extra_nodes + if gfp::subtype(&renv, &st, &rt) { surely_skipped(&renv, &(s.av)(v.as_ref(), false), &st, &rt) } else { 0 };
         }
     }
@@ -593,8 +597,7 @@ fn check_case(l: &mut Local, case: &Case, qrng: &mut Rng, log: bool) {
                 None => w.s += model_cost(&wenv, wv, wt, tlen), // surplus argument
             }
         }
-        // native surplus argument (not part of wargs): bounded through the node count
-        let extra_s = if let Case::Native { extra: Some(_), .. } = case { (n_nodes as f64) * 40.0 } else { 0.0 };
+        let extra_s = 0.0;
         let (m_model, s_model) = if untyped_api { (0.0, w.m + w.s) } else { (w.m, w.s) };
         let mult = if untyped_api { 50.0 } else { 1.0 };
         // a failed typed attempt may have walked the expected type (expected-only optional fields) before back-tracking
